@@ -770,6 +770,13 @@ class SimEvent(_OrigEvent):
     self._serial = _event_serial[0]
 
   def __hash__(self):
+    # Hashing happens inside WeakSet.add() / discard(), which are Python-level stdlib code: CPython
+    # can switch threads there.  openhtf registers watcher events in a WeakSet *while holding the
+    # subscription lock*, so this is the one place where a thread can be pre-empted inside that
+    # critical section; stdlib frames are not traced, hence this explicit scheduling point.
+    me = cur()
+    if me is not None and SIM is not None and not SIM.shutting_down and getattr(SIM, 'hash_yield', True):
+      SIM.yield_point(me)
     return self._serial
 
   def __eq__(self, other):
